@@ -1,5 +1,7 @@
 package vrt
 
+import "unsafe"
+
 // Support for the context shim: context.AfterFunc callbacks run as managed threads, started when a
 // cancellation made through the shim completes.
 
@@ -8,6 +10,16 @@ type afterFunc struct {
 	f       func()
 	stopped bool
 	started bool
+	hb      byte // registration happens-before the callback (as through the context's mutex)
+}
+
+//go:norace
+func (a *afterFunc) start() {
+	a.started = true
+	GoNamed("afterfunc", func() {
+		RaceAcquire(unsafe.Pointer(&a.hb))
+		a.f()
+	})
 }
 
 // RegisterAfterFunc arranges for f to run in its own managed thread once isDone reports true
@@ -17,10 +29,10 @@ type afterFunc struct {
 func RegisterAfterFunc(isDone func() bool, f func()) (stop func() bool) {
 	s := S
 	a := &afterFunc{isDone: isDone, f: f}
+	RaceReleaseMerge(unsafe.Pointer(&a.hb))
 	s.afterFuncs = append(s.afterFuncs, a)
 	if isDone() {
-		a.started = true
-		GoNamed("afterfunc", f)
+		a.start()
 	}
 	return func() bool {
 		if a.started || a.stopped {
@@ -45,8 +57,7 @@ func AfterCancel() {
 			continue
 		}
 		if a.isDone() {
-			a.started = true
-			GoNamed("afterfunc", a.f)
+			a.start()
 			continue
 		}
 		s.afterFuncs[k] = a
